@@ -841,6 +841,31 @@ def judge_reuse(fa, fb, payload):
     return problems
 
 
+def _with_debugging(fn):
+    """Run fn with the _debug switches of the modules on the APDU path set (log records go nowhere)."""
+    import logging
+    import bacpypes.apdu as m_apdu
+    import bacpypes.pdu as m_pdu
+    import bacpypes.comm as m_comm
+    mods = (m_apdu, m_pdu, m_comm)
+    old = [m._debug for m in mods]
+    root = logging.getLogger("bacpypes")
+    old_level, old_handlers, old_prop = root.level, list(root.handlers), root.propagate
+    root.handlers[:] = [logging.NullHandler()]
+    root.propagate = False
+    root.setLevel(logging.DEBUG)
+    for m in mods:
+        m._debug = 1
+    try:
+        return fn()
+    finally:
+        for m, v in zip(mods, old):
+            m._debug = v
+        root.setLevel(old_level)
+        root.handlers[:] = old_handlers
+        root.propagate = old_prop
+
+
 def stale_shard(item, deadline):
     tier, seed, lo, hi = item
     acc = Acc()
@@ -861,6 +886,18 @@ def stale_shard(item, deadline):
                 acc.fail(signature("stale", name, "encode-with-foreign-fields-set:octets-differ", [path]),
                          {"fields": f, "path": path, "emitted": enc[1][:8].hex(), "reference": want[:8].hex()},
                          {"part": "stale", "f": f, "path": path})
+        # the same decode and encode with the module's debugging switched on (what --debug bacpypes.apdu does): tracing
+        # may not change what is decoded or emitted
+        plain = [(path, decode_via(path, header + (payload if ref.CARRIES_DATA[f["type"]] else b"")),
+                  encode_via(path, f, None, payload)) for path in PATHS]
+        with_debug = _with_debugging(lambda: [(path, decode_via(path, header + (payload if ref.CARRIES_DATA[f["type"]] else b"")),
+                                               encode_via(path, f, None, payload)) for path in PATHS])
+        acc.case(("debug", i))
+        if with_debug != plain:
+            bad = [a[0] for a, b in zip(plain, with_debug) if a != b]
+            acc.fail(signature("debugging", name, "result-differs-when-debugging-is-switched-on", bad),
+                     {"fields": f, "paths": bad, "off": repr([x for x in plain if x[0] in bad])[:300],
+                      "on": repr([x for x in with_debug if x[0] in bad])[:300]}, {"part": "debug", "f": f})
         for j, g in enumerate(cases):
             acc.case(("reuse", j, i))
             problems = judge_reuse(g, f, payload)
@@ -941,6 +978,13 @@ def replay(case):
         ok = enc[0] == "octets" and enc[1][:len(header)] == header
         return ok, "fields=%r path=%s, every other attribute set loud first\nreference header %s\nemitted %r" % (
             f, case["path"], header.hex(), enc[1].hex() if enc[0] == "octets" else enc)
+    if part == "debug":
+        f = dict(case["f"])
+        header = ref.build_header(f)
+        pl = b"\xC3" if ref.CARRIES_DATA[f["type"]] else b""
+        off = [decode_via(p, header + pl) for p in PATHS]
+        on = _with_debugging(lambda: [decode_via(p, header + pl) for p in PATHS])
+        return off == on, "fields=%r\ndebugging off: %r\ndebugging on:  %r" % (f, off, on)
     if part == "reuse":
         fa, fb = dict(case["first"]), dict(case["second"])
         problems = judge_reuse(fa, fb, b"\xC3")
